@@ -67,7 +67,7 @@ def run_checks(k, patch_text, checks, name):
         try:
             for c in checks:
                 t0 = time.time()
-                rc, out = sh(f"timeout 3000 ./check {c} quick 2>&1 | tail -60", verif, timeout=3100)
+                rc, out = sh(f"timeout 3000 ./check {c} quick 2>&1 | grep -E '^(VIOLATION|TOOL-ERROR|KNOWN|  C[0-9]|\\[C[0-9])' | head -60", verif, timeout=3100)
                 viol = [l for l in out.splitlines() if l.startswith("VIOLATION")]
                 detail = [l for l in out.splitlines() if l.startswith("  C")]
                 tool = [l for l in out.splitlines() if l.startswith("TOOL-ERROR")]
